@@ -35,6 +35,7 @@ pub fn analyze_trait(item_trait: syn::ItemTrait) -> syn::Result<OutTrait> {
                     attrs: method.attrs,
                     entrait_sig,
                     originally_async,
+                    fn_generic_args: None,
                 });
             }
             syn::TraitItem::Type(ty) => {
